@@ -1839,3 +1839,61 @@ def filter_guard_calls(prog, pv, atoms, pred):
         if pol == 1 and ct is not None:
             out.append((cb, ct))
     return out
+
+
+# =====================================================================================================
+# integer comparisons as decisions
+# =====================================================================================================
+REL_TRUTH = {"Lt": {"lt"}, "Le": {"lt", "eq"}, "Gt": {"gt"}, "Ge": {"gt", "eq"}, "Eq": {"eq"}, "Ne": {"lt", "gt"}}
+
+
+def compare_switches(body, pv):
+    """switches that branch on one comparison `l OP r`: list of dict(bb, op, l, r, true_tg, false_tg, line).
+    A `!` between the comparison and the switch swaps the targets."""
+    out = []
+    defs = pv.defs(body)
+    for bi in sorted(body.reach):
+        x = body.blocks[bi].term
+        if x.k != "switch" or x.discr.place is None or not x.discr.place.is_local() or x.discr_ty != "bool":
+            continue
+        l = x.discr.place.local
+        neg = False
+        st = None
+        seen = set()
+        while l is not None and l not in seen:
+            seen.add(l)
+            ds = defs.get(l, [])
+            if len(ds) != 1 or ds[0][0] != "assign":
+                break
+            rv = ds[0][2].rv
+            if rv["k"] == "bin" and rv["op"] in REL_TRUTH:
+                st = ds[0][2]
+                break
+            if rv["k"] == "un" and rv["op"] == "Not" and rv["o"].place is not None and rv["o"].place.is_local():
+                neg = not neg
+                l = rv["o"].place.local
+            elif rv["k"] == "use" and rv["op"].place is not None and rv["op"].place.is_local():
+                l = rv["op"].place.local
+            else:
+                break
+        if st is None:
+            continue
+        tg = dict(x.targets)
+        if 0 in tg:
+            false_tg, true_tg = tg[0], ([t for v, t in x.targets if v != 0] or [x.otherwise])[0]
+        else:
+            true_tg, false_tg = ([t for v, t in x.targets if v != 0] or [None])[0], x.otherwise
+        if neg:
+            true_tg, false_tg = false_tg, true_tg
+        out.append({"bb": bi, "op": st.rv["op"], "l": st.rv["l"], "r": st.rv["r"], "true_tg": true_tg, "false_tg": false_tg, "line": st.line})
+    return out
+
+
+def relation_cases(cs, swap=False):
+    """for a compare_switches entry: {'lt' | 'eq' | 'gt' (of l against r; of r against l with swap): target block}"""
+    flip = {"lt": "gt", "gt": "lt", "eq": "eq"}
+    out = {}
+    for case in ("lt", "eq", "gt"):
+        c = flip[case] if swap else case
+        out[case] = cs["true_tg"] if c in REL_TRUTH[cs["op"]] else cs["false_tg"]
+    return out
